@@ -429,6 +429,17 @@ def shell_selftest(box, shells):
         if sorted(bad) != [1, 2, 4]:
             raise RuntimeError('shell oracle self-test (attribution) failed for %s: %r' % (sh.name, bad))
         n += len(probes) + 5
+        # the in-process quoting reference (posix_words) must agree with the real shell wherever it gives words
+        items = []
+        for t in inputs.texts(['a', "'", '"', '\\', ' ', '\t', '$', '#'], 4):
+            words = posix_words(t)[0]
+            if isinstance(words, list):
+                items.append((t, [w.encode() for w in words]))
+        bad = run_items(box, sh, items, [20])
+        if bad:
+            i = sorted(bad)[0]
+            raise RuntimeError('quoting reference disagrees with %s on %r: %r' % (sh.name, items[i][0], bad[i]))
+        n += len(items)
     return n
 
 
@@ -445,15 +456,16 @@ def gen_strings(alpha, maxlen, prefix):
 def gen_cases(spec):
     kind = spec[0]
     alpha = SH_ALPHA if spec[1] == 'sh' else CMD_ALPHA
-    if kind == 'short':                      # single-argument lists, strings shorter than the shard depth
+    if kind == 'short':                      # single-argument lists, strings up to the shard depth (simplest first)
         _, _, depth = spec
-        for n in range(depth):
+        for n in range(depth + 1):
             for t in itertools.product(alpha, repeat=n):
                 yield [''.join(t)]
-    elif kind == 'prefix':                   # single-argument lists, all strings <= maxlen with this prefix
+    elif kind == 'prefix':                   # single-argument lists, all longer strings <= maxlen with this prefix
         _, _, prefix, maxlen = spec
         for s in gen_strings(alpha, maxlen, prefix):
-            yield [s]
+            if len(s) > len(prefix):
+                yield [s]
     elif kind == 'empty':
         yield []
     elif kind == 'pairs':                    # [x, y] for all y of length <= k
@@ -882,11 +894,11 @@ def int_eval(L, vname, kw):
 def int_shard(spec):
     kind = spec[0]
     t = inputs.Tally()
-    if kind == 'subsets':                                    # subsets of 0..n-1 whose lowest bits are `fixed`
-        _, n, low, lowbits = spec
+    if kind == 'subsets':                                    # subsets of 0..n-1 whose highest bits are `high`
+        _, n, high, highbits = spec
         lists = []
-        for m in range(1 << (n - lowbits)):
-            mask = (m << lowbits) | low
+        for m in range(1 << (n - highbits)):
+            mask = (high << (n - highbits)) | m
             lists.append([i for i in range(n) if mask >> i & 1])
     else:                                  # all lists of length <= k over INT_MENU starting with `first`, except
         _, first, k, sub_n = spec          # those the subset enumeration already contains (strictly ascending, < sub_n)
@@ -947,12 +959,12 @@ def complement_eval(L, start, end, vname='default'):
 
 
 def complement_shard(spec):
-    _, n, low, lowbits, wmax = spec
+    _, n, high, highbits, wmax = spec
     t = inputs.Tally()
     starts = [OMIT] + list(range(0, wmax + 1))
     ends = [OMIT, None] + list(range(0, wmax + 1))
-    for m in range(1 << (n - lowbits)):
-        mask = (m << lowbits) | low
+    for m in range(1 << (n - highbits)):
+        mask = (high << (n - highbits)) | m
         L = [i for i in range(n) if mask >> i & 1]
         for s in starts:
             for e in ends:
@@ -1104,14 +1116,14 @@ def run(ctx):
                       rule='an argument is empty or contains a double quote, backslash, space or tab')
     inputs.run_shards(ctx, cmd_shard, list_shards('cmd', B['cmd_pair_len'], B['cmd_maxlen']), part='cmd:lists,tokens,code-point-sweep',
                       rule='same rule, any argument of the list')
-    lowbits = 4
+    hb = 4
     n = B['int_subset_n']
-    int_shards = [('subsets', n, low, lowbits) for low in range(1 << lowbits)]
+    int_shards = [('subsets', n, high, hb) for high in range(1 << hb)]
     int_shards += [('lists', x, B['int_list_len'], n) for x in INT_MENU]
     inputs.run_shards(ctx, int_shard, int_shards, part='int:format/parse',
                       rule='the list has duplicates or at least two consecutive integers (a range must be formed)')
     n = B['compl_n']
-    inputs.run_shards(ctx, complement_shard, [('compl', n, low, lowbits, B['compl_wmax']) for low in range(1 << lowbits)],
+    inputs.run_shards(ctx, complement_shard, [('compl', n, high, hb, B['compl_wmax']) for high in range(1 << hb)],
                       part='int:complement', rule='non-empty list and non-empty expected complement')
     inputs.run_shards(ctx, gzip_shard, [('gz', lv, B['gzip_maxlen']) for lv in [None] + list(range(1, 10))],
                       part='gzip', rule='non-empty byte string')
